@@ -314,11 +314,11 @@ theorem fan_loop (hashOf : List β → H) (stored : String → Bool) (es : List 
     rw [List.cons_append, h1, h2]
 
 /-- Processing, in the target archive, a file entry that carries its data (or is empty). -/
-theorem step_own (hashOf : List β → H) (stored : String → Bool) (es : List (Entry β)) (F0 : List (String × RFile H)) (EXT : List String)
+theorem step_own (hashOf : List β → H) (stored : String → Bool) (pad : String → List β) (es : List (Entry β)) (F0 : List (String × RFile H)) (EXT : List String)
     (ctx : TCtx hashOf es stored F0 EXT) (pre : List (Entry β)) (p : String) (m : Meta) (d : List β) (post : List (Entry β))
     (hs : es = pre ++ (.file p m d) :: post) (hown : isOwnE stored (.file p m d : Entry β) = true)
     (st : RSt β) (seen : List String) (inv : TInv stored es F0 EXT pre st seen) :
-    ∃ st', processEntry hashOf F0 true st seen (stripE stored (.file p m d)) =
+    ∃ st', processEntry hashOf F0 true st seen (stripE stored pad (.file p m d)) =
         some (st', seen ++ [keyE (.file p m d : Entry β)]) ∧
       TInv stored es F0 EXT (pre ++ [.file p m d]) st' (seen ++ [keyE (.file p m d : Entry β)]) := by
   have wf := ctx.wf
@@ -335,18 +335,22 @@ theorem step_own (hashOf : List β → H) (stored : String → Bool) (es : List 
   subst ha0e
   simp only [contentE] at hhash hsize hfan
   have hdl : info.paths.dropLast = fan := by rw [hpaths]; simp
-  -- the archived data is the content
-  have hdata : (if stored p = true then d else []) = d := by
+  -- the archived data begins with the content (an empty file that is not stored has an empty entry)
+  have hdata : ∃ tail, (if stored p = true then padded pad p d else []) = d ++ tail := by
     simp only [isOwnE, Bool.or_eq_true, List.isEmpty_iff] at hown
-    rcases hown with h | h
-    · subst h; simp
-    · simp [h]
+    by_cases hsp : stored p = true
+    · obtain ⟨tail, ht⟩ := padded_eq pad p d
+      exact ⟨tail, by simp [hsp, ht]⟩
+    · rcases hown with h | h
+      · subst h; exact ⟨[], by simp [hsp]⟩
+      · exact absurd h hsp
+  obtain ⟨tail, hdata⟩ := hdata
   have hk : ("/" ++ "/".intercalate (fpOf (Entry.file p m d : Entry β))) = keyE (Entry.file p m d : Entry β) := rfl
   have hfp' : ∀ x : List β, fpOf (Entry.file p m x : Entry β) = fpOf (Entry.file p m d : Entry β) := fun _ => rfl
   simp only [stripE, hdata, processEntry, hpath, hk, hget]
   -- restore_files: the fan-out …
   unfold restoreFiles
-  have htake : d.take info.size = d := by rw [hsize]; simp
+  have htake : (d ++ tail).take info.size = d := by rw [hsize]; simp
   rw [htake, hpaths]
   obtain ⟨st1, h1, inv1⟩ := fan_loop hashOf stored es F0 EXT ctx pre hpre _ he hnotin hown info hinfo
     (by rw [hdl]; exact hfan) [keyE (.file p m d : Entry β)] fan [] st (by rw [hdl]; rfl) (MInv.ofT inv)
@@ -387,7 +391,7 @@ theorem step_own (hashOf : List β → H) (stored : String → Bool) (es : List 
   have hkk : keyE (Entry.file p m d : Entry β) = keyOf (fpOf (Entry.file p m d : Entry β)) := rfl
   simp only [createFiles, hkk, hkeyp, Bool.true_and, decide_true, Bool.not_true, Bool.false_and, Bool.false_eq_true, if_false,
     if_true, hc]
-  have hlen : ¬ (d.length < info.size) := by rw [hsize]; exact Nat.lt_irrefl _
+  have hlen : ¬ ((d ++ tail).length < info.size) := by rw [hsize, List.length_append]; omega
   have hh : ¬ (hashOf d ≠ info.hash) := by rw [hhash]; simp
   have hcont : (fan ++ [keyOf (fpOf (Entry.file p m d : Entry β))]).contains (keyOf (fpOf (Entry.file p m d : Entry β))) = true := by simp
   simp only [hlen, hh, if_false, hcont, Bool.and_self, if_true, hkeyp]
@@ -488,10 +492,10 @@ theorem ext_of_not_own (stored : String → Bool) (p : String) (m : Meta) (d : L
   simp [isExtE, h.1, h.2]
 
 /-- The loop over the entries of the target archive. -/
-theorem target_entries (hashOf : List β → H) (stored : String → Bool) (es : List (Entry β)) (F0 : List (String × RFile H)) (EXT : List String)
+theorem target_entries (hashOf : List β → H) (stored : String → Bool) (pad : String → List β) (es : List (Entry β)) (F0 : List (String × RFile H)) (EXT : List String)
     (ctx : TCtx hashOf es stored F0 EXT) :
     ∀ (post pre : List (Entry β)) (st : RSt β) (seen : List String), es = pre ++ post → TInv stored es F0 EXT pre st seen →
-      ∃ st' seen', processEntries hashOf F0 true (post.map (stripE stored)) st seen = some (st', seen') ∧
+      ∃ st' seen', processEntries hashOf F0 true (post.map (stripE stored pad)) st seen = some (st', seen') ∧
         TInv stored es F0 EXT es st' seen' := by
   intro post
   induction post with
@@ -506,19 +510,19 @@ theorem target_entries (hashOf : List β → H) (stored : String → Bool) (es :
     simp only [List.map_cons, processEntries]
     cases e with
     | dir p m =>
-      obtain ⟨st1, h1, inv1⟩ := step_dir hashOf stored es F0 EXT ctx pre p m rest hs st seen inv
+      obtain ⟨st1, h1, inv1⟩ := step_dir hashOf stored pad es F0 EXT ctx pre p m rest hs st seen inv
       rw [h1]
       exact ih _ st1 seen hs' inv1
     | symlink p m t =>
-      obtain ⟨st1, h1, inv1⟩ := step_symlink hashOf stored es F0 EXT ctx pre p m t rest hs st seen inv
+      obtain ⟨st1, h1, inv1⟩ := step_symlink hashOf stored pad es F0 EXT ctx pre p m t rest hs st seen inv
       rw [h1]
       exact ih _ st1 seen hs' inv1
     | file p m d =>
       by_cases hown : isOwnE stored (.file p m d : Entry β) = true
-      · obtain ⟨st1, h1, inv1⟩ := step_own hashOf stored es F0 EXT ctx pre p m d rest hs hown st seen inv
+      · obtain ⟨st1, h1, inv1⟩ := step_own hashOf stored pad es F0 EXT ctx pre p m d rest hs hown st seen inv
         rw [h1]
         exact ih _ st1 _ hs' inv1
-      · obtain ⟨st1, h1, inv1⟩ := step_ext hashOf stored es F0 EXT ctx pre p m d rest hs (ext_of_not_own stored p m d hown) st seen inv
+      · obtain ⟨st1, h1, inv1⟩ := step_ext hashOf stored pad es F0 EXT ctx pre p m d rest hs (ext_of_not_own stored p m d hown) st seen inv
         rw [h1]
         exact ih _ st1 seen hs' inv1
     | other p =>
